@@ -69,7 +69,8 @@ class C01(IRProp):
                    "start (positive_positions); that class is covered by the correspondence and oracle runs only"]
     level_rule = ("random x86-64 modules (1-3 functions, code and data blocks, labels incl. end labels, alignment, offset tables) with up to 3 "
                   "insertions / replacements / deletions per block at instruction boundaries; distinct = distinct model input line; "
-                  "non-trivial = at least one modification")
+                  "non-trivial = at least one modification; plus 500 / 5000 small x86-64, AArch64 and MIPS32 modules with insert_at, "
+                  "SingleBlockScope and AllBlocksScope registrations (ENTRY / EXIT) and alignment entries, compared byte for byte with the listing edit")
     oracle_text = ("section bytes after apply() == listing edit of the original bytes with the assembler's bytes of each patch, modulo nop/zero "
                    "runs that align a block whose alignment is recorded")
 
@@ -89,6 +90,25 @@ class C01(IRProp):
             if not match_with_padding(actual, chunks, aligns):
                 return [dict(what=f"section {sect.name}: bytes {actual.hex()} are not the listing edit {[c.hex() for c, _ in chunks]}")]
         return []
+
+
+    def oracle(self, tier, ctx, boosted):
+        import random
+
+        from harness import ctxlevel
+        from vlib import common as C
+        res = super().oracle(tier, ctx, boosted)
+        # the listing edit on every ISA, with scope registrations (ENTRY / EXIT of blocks that end in calls, jumps, returns or nothing)
+        # and alignment padding of 4-byte nops
+        rnd = C.rng("c01-scoped" + ("-boost" if boosted else ""))
+        for _ in range({"quick": 500, "thorough": 5000}["thorough" if boosted else tier]):
+            sd = rnd.randrange(1 << 30)
+            w = ctxlevel.scoped_listing(random.Random(sd))
+            res["evaluations"] += 1
+            if w:
+                res["violations"].append(dict(what=w, input={"scoped_listing_seed": sd}, finding=None))
+        res["violations"] = [b for b in res["violations"] if b["finding"] is None][:10] + [b for b in res["violations"] if b["finding"] is not None][:5]
+        return res
 
 
 PROP = C01()
